@@ -14,6 +14,8 @@ Definition nrest (b : ablock) : N := N.of_nat (length (ab_restarts b)).
 Definition dummy_pe : pentry := mkpe 0 0 [] [] true.
 Definition entry_at (b : ablock) (j : nat) : pentry := nth j (ab_entries b) dummy_pe.
 Definition restart_at (b : ablock) (i : N) : N := nth (N.to_nat i) (ab_restarts b) 0.
+Definition key_at (b : ablock) (j : nat) : bytes := pe_key (entry_at b j).
+Definition off_at (b : ablock) (j : nat) : N := pe_off (entry_at b j).
 
 Fixpoint find_off (es : list pentry) (off : N) (i : nat) : option nat :=
   match es with
